@@ -1,4 +1,4 @@
-(* Model of tealer/utils/regex/regex.py: _find_label, _is_equal, _is_match, _find_instructions, match_regex. *)
+(* Model of tealer/utils/regex/regex.py: _find_label, _is_equal, _is_match, _successors, _find_instructions, match_regex. *)
 From Coq Require Import String List NArith Bool Arith.
 From Tealer Require Import Tables Syntax Parse Cfg Analysis.
 Import ListNotations.
@@ -8,7 +8,8 @@ Open Scope list_scope.
 (* _is_equal: same class and same printed text *)
 Definition is_equal (a b : instr) : bool := (cls_of a =? cls_of b) && (str_of_instr a =? str_of_instr b).
 
-(* the unique successor used by the straight-line matcher *)
+(* the unique successor used by the straight-line matcher: Instruction.next (NOT _successors: a pattern runs
+   across a callsub to the instruction after it) *)
 Definition single_next (p : prog) (k : nat) : option nat :=
   match ins_next p k with Some [n] => Some n | _ => None end.
 
@@ -34,6 +35,23 @@ Fixpoint collect_match (p : prog) (k : nat) (n : nat) : list nat :=
   | S m => k :: match single_next p k with Some k' => collect_match p k' m | None => [] end
   end.
 
+(* _successors: Instruction.next, plus for a callsub the first instruction of the called subroutine
+   (ins.called_subroutine.entry.entry_instr = the label instruction labels[name]: a label always starts its block).
+   The fall-through successor comes first, the callee entry last.  A label that does not resolve is the
+   KeyError case of parse_teal (cannot happen for a parsed program). *)
+Definition callee_label (i : instr) : option string :=
+  match i with ICallsub l => Some l | _ => None end.
+
+Definition rx_next (p : prog) (k : nat) : option (list nat) :=
+  match ins_next p k, op_at p k with
+  | Some nx, Some i =>
+      match callee_label i with
+      | Some l => match find_label p l with Some e => Some (nx ++ [e]) | None => None end
+      | None => Some nx
+      end
+  | _, _ => None
+  end.
+
 Record rstate := mkR { r_visited : list nat; r_matches : list (list nat); r_covered : list nat }.
 
 (* _find_instructions with the shared mutable sets threaded through *)
@@ -47,7 +65,7 @@ Fixpoint find_instructions (fuel : nat) (p : prog) (regex : list instr) (cur : n
         if is_match p (Some cur) regex
         then (true, mkR (r_visited st1) (r_matches st1 ++ [collect_match p cur (pred (length regex))]) (r_covered st1))
         else (false, st1) in
-      match ins_next p cur with
+      match rx_next p cur with
       | None => Exn "KeyError: label"
       | Some nx =>
           fold_left (fun acc n =>
@@ -70,12 +88,56 @@ Definition find_regex_label (t : teal) (label : string) : option nat :=
   if label =? "*" then hd_error (t_retained_ins t)
   else find (fun k => match op_at (t_prog t) k with Some (ILabel l) => l =? label | _ => false end) (t_retained_ins t).
 
+(* ---------------------------------------------------------------- the backward closure of match_regex
+   predecessors: for ins in visited: for next_ins in _successors(ins): predecessors[next_ins].append(ins).
+   The table pairs every visited position with its successor list; predecessors[k] = the visited positions
+   whose successor list contains k (the order is irrelevant: the result is a set). *)
+Definition next_table (p : prog) (visited : list nat) : list (nat * option (list nat)) :=
+  map (fun j => (j, rx_next p j)) visited.
+
+Definition prevs_in (tbl : list (nat * option (list nat))) (k : nat) : list nat :=
+  map fst (filter (fun e => match snd e with Some nx => nat_mem k nx | None => false end) tbl).
+
+(* predecessors[k] *)
+Definition ins_prevs (p : prog) (visited : list nat) (k : nat) : list nat := prevs_in (next_table p visited) k.
+
+(* for prev_ins in predecessors[ins]: if prev_ins not in reaches_match: add, append.
+   state = (worklist as a stack: head = last element of the Python list, reaches_match) *)
+Definition back_push (st : list nat * list nat) (j : nat) : list nat * list nat :=
+  if nat_mem j (snd st) then st else (j :: fst st, j :: snd st).
+
+(* while worklist: ins = worklist.pop(); ...   prev = the predecessor map.
+   Every iteration pops one element and every pushed element is new in reaches_match (a subset of visited),
+   so length worklist + length visited + 1 iterations suffice (RegexLemmas.back_close_spec). *)
+Fixpoint back_close (fuel : nat) (prev : nat -> list nat) (wl acc : list nat) : list nat :=
+  match fuel with
+  | O => acc
+  | S fu =>
+      match wl with
+      | [] => acc
+      | k :: wl' =>
+          let st := fold_left back_push (prev k) (wl', acc) in
+          back_close fu prev (fst st) (snd st)
+      end
+  end.
+
+(* [match[0] for match in matches]; a match is never empty *)
+Definition match_heads (ms : list (list nat)) : list nat :=
+  flat_map (fun m => match m with k :: _ => [k] | [] => [] end) ms.
+
+(* reaches_match: the worklist starts with the first instruction of every match (popped from the end) *)
+Definition reaches_match (p : prog) (visited : list nat) (ms : list (list nat)) : list nat :=
+  let hs := match_heads ms in
+  let tbl := next_table p visited in
+  back_close (length hs + length visited + 1) (prevs_in tbl) (rev hs) [].
+
+(* covered |= reaches_match: returned as a list, duplicates allowed (the driver sorts and dedups) *)
 Definition match_regex (fuel : nat) (t : teal) (label : string) (regex : list instr) : outcome (list (list nat) * list nat) :=
   match find_regex_label t label with
   | None => Done ([], [])
   | Some start =>
       match find_instructions fuel (t_prog t) regex start (mkR [] [] []) with
-      | Done (_, st) => Done (r_matches st, r_covered st)
+      | Done (_, st) => Done (r_matches st, r_covered st ++ reaches_match (t_prog t) (r_visited st) (r_matches st))
       | Exn e => Exn e
       | OutOfFuel => OutOfFuel
       end
